@@ -1084,6 +1084,39 @@ theorem connect_evo {s : Side} (hwf : WF s) (name : String) (k : PKind) : Evo s 
           h2.wf rfl rfl rfl rfl [] (by simp) (fun _ => rfl) rfl)
       exact h3.trans (connectTail_evo h3.wf name _ k)
 
+theorem gotRecordNoAck_evo {s : Side} (hwf : WF s) (seq : Nat) (handle : Side → Res)
+    (hh : ∀ s1, WF s1 → Evo s1 (handle s1).1) : Evo s (gotRecordNoAck seq handle s).1 := by
+  have key : ∀ (b : Bool) (h' : Option Nat),
+      Evo s (if b = true then (s, none) else handle { s with highestAcked := h' }).1 := by
+    intro b h'
+    cases b with
+    | true => exact Evo.refl hwf
+    | false =>
+      simp only [Bool.false_eq_true, if_false]
+      have h2 : Evo s { s with highestAcked := h' } :=
+        evo_same hwf rfl rfl rfl rfl [] (by simp) (fun _ => rfl) rfl
+      exact h2.trans (hh _ h2.wf)
+  unfold gotRecordNoAck
+  exact key _ _
+
+theorem Rx.handler_evo (r : Rx) {s : Side} (hwf : WF s) : Evo s (r.handler s).1 := by
+  cases r with
+  | opn q scid name => exact handleOpen_evo hwf scid name
+  | data q scid d => exact handleData_evo hwf scid d
+  | close q scid => exact handleClose_evo hwf scid
+
+theorem selectRun_evo : ∀ (rs : List Rx) (s : Side), WF s → Evo s (selectRun rs s).1
+  | [], _, h => Evo.refl h
+  | r :: rs, s, h => by
+    have h1 := gotRecordNoAck_evo h r.seq r.handler (fun _ h' => r.handler_evo h')
+    unfold selectRun
+    cases hr : gotRecordNoAck r.seq r.handler s with
+    | mk s' e =>
+      rw [hr] at h1
+      cases e with
+      | none => exact h1.trans (selectRun_evo rs s' h1.wf)
+      | some err => exact h1.trans (evo_same h1.wf rfl rfl rfl rfl [] (by simp) (fun _ => rfl) rfl)
+
 theorem step_evo {s : Side} (hwf : WF s) (o : Op) : Evo s (step s o).1 := by
   cases o with
   | connect name k => exact connect_evo hwf name k
@@ -1110,6 +1143,11 @@ theorem step_evo {s : Side} (hwf : WF s) (o : Op) : Evo s (step s o).1 := by
   | rxOpen seq scid name => exact gotRecord_evo hwf seq _ (fun _ h1 => handleOpen_evo h1 scid name)
   | rxData seq scid d => exact gotRecord_evo hwf seq _ (fun _ h1 => handleData_evo h1 scid d)
   | rxClose seq scid => exact gotRecord_evo hwf seq _ (fun _ h1 => handleClose_evo h1 scid)
+  | park r => exact evo_same hwf rfl rfl rfl rfl [] (by simp [step]) (fun _ => rfl) rfl
+  | select =>
+    have h1 : Evo s { s with parked := [] } := evo_same hwf rfl rfl rfl rfl [] (by simp) (fun _ => rfl) rfl
+    exact h1.trans (selectRun_evo s.parked _ h1.wf)
+  | lost => exact evo_same hwf rfl rfl rfl rfl [] (by simp [step]) (fun _ => rfl) rfl
 
 theorem run_evo : ∀ (ops : List Op) (s : Side), WF s → Evo s (run s ops)
   | [], _, h => Evo.refl h
@@ -1415,6 +1453,20 @@ theorem wrun_side_a : ∀ (ops : List WOp) (w : World), ∃ opsA : List Op, (wru
       · exact ⟨r, rfl⟩
       · rename_i o _
         exact ⟨o :: r, rfl⟩
+    | parkAB =>
+      refine ⟨r, ?_⟩
+      simp only [wrun]
+      rw [hr]
+      simp only [wstep]
+      split <;> rfl
+    | parkBA =>
+      simp only [wrun]
+      rw [hr]
+      simp only [wstep]
+      split
+      · exact ⟨r, rfl⟩
+      · rename_i x _
+        exact ⟨.park x :: r, rfl⟩
 
 theorem gotRecord_fresh (s : Side) (seq : Nat) (handle : Side → Res)
     (hseq : ∀ h, s.highestAcked = some h → h < seq) :
@@ -1473,6 +1525,20 @@ theorem wstep_inv {la lb : Bool} {w : World} (h : WInv la lb w) (o : WOp) : WInv
     · exact ⟨h1, h2, h3, h4, h5, h6⟩
     · rename_i o _
       have ev := step_evo h1 o
+      exact ⟨ev.wf, h2, ev.ids h3, h4, ev.leader.trans h5, h6⟩
+  | parkAB =>
+    simp only [wstep]
+    split
+    · exact ⟨h1, h2, h3, h4, h5, h6⟩
+    · rename_i x _
+      have ev := step_evo h2 (.park x)
+      exact ⟨h1, ev.wf, h3, ev.ids h4, h5, ev.leader.trans h6⟩
+  | parkBA =>
+    simp only [wstep]
+    split
+    · exact ⟨h1, h2, h3, h4, h5, h6⟩
+    · rename_i x _
+      have ev := step_evo h1 (.park x)
       exact ⟨ev.wf, h2, ev.ids h3, h4, ev.leader.trans h5, h6⟩
 
 theorem wrun_inv {la lb : Bool} : ∀ (ops : List WOp) (w : World), WInv la lb w → WInv la lb (wrun w ops)
